@@ -33,6 +33,10 @@ func (m *Map[K, V]) ToJSON() ([]byte, error) {
 		if err != nil {
 			return nil, err
 		}
+		if len(km) > 0 && km[0] != '"' {
+			// JSON object keys are strings: quote integer keys the way encoding/json does for maps
+			km = append(append([]byte{'"'}, km...), '"')
+		}
 		buf.Write(km)
 
 		buf.WriteRune(':')
